@@ -1,7 +1,7 @@
 #!/bin/bash
 # usage: seedcheck.sh [tier] <seed-id>...   (default tier quick; no ids = all)
 # applies seeded/<id>/patch.diff to /repo, runs the check of the property it breaks, restores /repo.
-[ -z "$VERIF_NOLOCK" ] && exec env VERIF_NOLOCK=1 flock -x /tmp/.verif-repo.lock "$0" "$@"
+[ -z "$VERIF_NOLOCK" ] && exec env VERIF_NOLOCK=1 VERIF_SCRATCH=/tmp/verif-scratch flock -x /tmp/.verif-repo.lock "$0" "$@"
 tier=quick; case "$1" in quick|thorough) tier=$1; shift;; esac
 cd "$(dirname "$0")"
 ids=${@:-$(ls seeded | grep '^S-\|^R2-')}
